@@ -75,6 +75,7 @@ GENERAL_PDDL_KEYWORDS = {
     "scale-down",
     "increase",
     "decrease",
+    "assign",
     "derived",
     "objects",
     "init",
